@@ -77,9 +77,13 @@ func (c *TrackSetController) Add(op *TrackOp) {
 	c.set.Add(n, op)
 }
 
+// Distribute adds a copy of op to every track at the same global time.
 func (c *TrackSetController) Distribute(op *TrackOp) {
 	for i := range c.set.Len() {
-		c.set.Add(i, op)
+		// each track owns its op (Track.Add rewrites TickDelta),
+		// and no delay is propagated because every track receives the event
+		x := *op
+		c.set.Get(i).Add(&x)
 	}
 }
 
